@@ -37,6 +37,11 @@ type Config struct {
 	// ONE producer goroutine ("rr") feeds all inputs round-robin (item j of every input before item j+1 of any) and
 	// closes them at the end: the inputs depend on each other — every one of them must be listened to for any to finish.
 	RoundRobin bool `json:"round_robin,omitempty"`
+	// the round-robin producer deals from the LAST input to the first (right <- x; left <- y)
+	RRDesc bool `json:"rr_desc,omitempty"`
+	// fmap: lock-step — the producer sends item n+1 (and closes) only after the consumer acknowledged the result of
+	// item n on an unbuffered channel "ack": the result of an item must be handed over before the next item is taken.
+	LockStep bool `json:"lock_step,omitempty"`
 	// joinsel: channel ARGUMENTS that are nil at run time (indices; their Items are empty).  A nil argument is never
 	// received from; the output must still be closed once the other inputs are drained (LTS: `Cfg.nilIn`).
 	Nils []int `json:"nils,omitempty"`
@@ -609,6 +614,38 @@ func OverlapConfigs() []Config {
 				}
 				out = append(out, c)
 			}
+		}
+	}
+	return out
+}
+
+// LockStepConfigs: fmap with a producer that waits for the consumer's acknowledgement of every result.
+func LockStepConfigs() []Config {
+	var out []Config
+	for _, variant := range Variants["fmap"] {
+		for k := 1; k <= 3; k++ {
+			for cp := 0; cp <= 2; cp++ {
+				c := Config{Sys: "fmap", Variant: variant, Caps: []int{cp}, Items: mkItems([]int{k}), LockStep: true}
+				out = append(out, withSpecials(c, func(i, j int) int { return (2*i + 3*j) % 4 }))
+			}
+		}
+	}
+	return out
+}
+
+// DealerConfigs: the select form fed by ONE goroutine that deals the items out over the unbuffered inputs starting with
+// the last channel argument.
+func DealerConfigs() []Config {
+	var out []Config
+	for _, variant := range Variants["joinsel"] {
+		n := SelArity(variant)
+		for k := 1; k <= 2; k++ {
+			counts := make([]int, n)
+			for i := range counts {
+				counts[i] = k
+			}
+			c := Config{Sys: "joinsel", Variant: variant, Caps: make([]int, n), Items: mkItems(counts), RoundRobin: true, RRDesc: true}
+			out = append(out, c)
 		}
 	}
 	return out
